@@ -1,20 +1,5 @@
-mod ast;
-mod choice;
-mod common;
-mod engine_t;
-mod hooks;
-mod local;
-mod model;
-mod props;
-mod run;
-mod stamp;
-mod subj;
-mod tworld;
-mod threads;
-mod value;
-mod vtime;
-
-use run::Tier;
+use rxv::run::{self, Tier};
+use rxv::{hooks, props, vtime};
 
 fn main() {
   let args: Vec<String> = std::env::args().collect();
@@ -33,6 +18,24 @@ fn main() {
   let seed: u64 = std::env::var("VERIF_SEED").ok().and_then(|s| s.parse().ok()).unwrap_or(1);
   let code = if args[2] == "--replay" {
     run::replay_file(prop, &args[3])
+  } else if args[2] == "--emit-corpus" {
+    // seed corpus for the libFuzzer campaign: byte tapes from a fixed PRNG (xorshift) of the run's seed
+    let dir = std::path::Path::new(&args[3]);
+    let _ = std::fs::create_dir_all(dir);
+    let mut x: u64 = seed.wrapping_mul(0x9e3779b97f4a7c15) | 1;
+    for i in 0..48 {
+      let len = 8 + (i * 4) % 160;
+      let bytes: Vec<u8> = (0..len)
+        .map(|_| {
+          x ^= x << 13;
+          x ^= x >> 7;
+          x ^= x << 17;
+          (x >> 24) as u8
+        })
+        .collect();
+      let _ = std::fs::write(dir.join(format!("seed-{i:02}")), bytes);
+    }
+    0
   } else {
     let tier = match std::env::var("VERIF_TIER").ok().as_deref().or(Some(args[2].as_str())) {
       Some("thorough") => Tier::Thorough,
